@@ -156,6 +156,15 @@ func c18Writer(r *eng.Run, mode int) {
 		}
 		r.Probe("reset_to_the_same_destination")
 	}
+	if !sameDest && mode != 1 && r.T.Chance(sim.LFault, 1, 4) {
+		// The destination of the second life fails as well (for the reused
+		// and for the fresh writer alike): a writer that has failed before
+		// has to notice and remember it like a new one.
+		at, n := r.T.Int(sim.LFaultAt, 4), r.T.Int(sim.LFaultAt, 3)
+		p2.WFailAt, p2.WFailN = at, n
+		p3.WFailAt, p3.WFailN = at, n
+		r.Probe("second_life_destination_fails")
+	}
 	w := wr1.W
 	var reused *wsutil.Writer
 	switch mode {
@@ -339,6 +348,25 @@ func (c closeOnlyCompressor) Write(p []byte) (int, error) { return c.fw.Write(p)
 func (c closeOnlyCompressor) Flush() error                { return c.fw.Flush() }
 func (c closeOnlyCompressor) Close() error                { return c.fw.Close() }
 
+// lazyFlushCompressor skips a Flush when nothing was written since the last.
+type lazyFlushCompressor struct {
+	fw    *flate.Writer
+	dirty bool
+}
+
+func (c *lazyFlushCompressor) Write(p []byte) (int, error) {
+	c.dirty = c.dirty || len(p) > 0
+	return c.fw.Write(p)
+}
+
+func (c *lazyFlushCompressor) Flush() error {
+	if !c.dirty {
+		return nil
+	}
+	c.dirty = false
+	return c.fw.Flush()
+}
+
 func c18FlateWriter(r *eng.Run) {
 	r.SetEntry("wsflate.Writer.Reset")
 	level := r.T.Range(sim.LCfg, -2, 9)
@@ -349,6 +377,16 @@ func c18FlateWriter(r *eng.Run) {
 			return closeOnlyCompressor{f}
 		}
 		r.Probe("compressor_with_close_but_without_reset")
+	}
+	if r.T.Chance(sim.LCfg, 1, 6) {
+		// A compressor that does nothing on a Flush without data (so an empty
+		// message leaves no tail behind: Flush has to report that, in a
+		// second life as in a first).
+		ctor = func(w io.Writer) wsflate.Compressor {
+			f, _ := flate.NewWriter(w, level)
+			return &lazyFlushCompressor{fw: f}
+		}
+		r.Probe("compressor_skipping_empty_flushes")
 	}
 	m1, m2 := drawMessage(r), drawMessage(r)
 	p1 := NewPipe(r, nil)
